@@ -169,6 +169,76 @@ Fixpoint run_del (ps : list pcoord) (d : node) : final :=
 (* Processor.delete_nodes / delete_gathered_nodes on already gathered coordinates *)
 Definition delete_nodes (cs : list coord) (d : node) : final := run_del (del_order cs) d.
 
+(* ---- the YAML-merge-key test of the dict branch (processor.py 777-799) ----
+   Before `del parent[parentref]` the dict branch scans the WHOLE document for
+   anchors (Anchors.scan_for_anchors(ancestry[0][0])) and, when parentref is
+   the anchor name of a MAPPING (is_ymk_anchor) and the parent itself has
+   merge keys (`hasattr(parent, "merge") and len(parent.merge) > 0`), removes a
+   `<<: *anchor` reference instead of a key.  The removal itself is NOT
+   modelled (outcome PyCrash NotImplemented); what is modelled is exactly when
+   the code leaves the ordinary path.  [mg] = identities of the CommentedMap
+   objects whose .merge list is non-empty (Doc.node does not represent merge
+   keys; the harness ships them beside the document). *)
+Definition anc_of (n : node) : list (string * node) :=
+  match anchor (node_info n) with
+  | Some a => if has_anchor_attr (node_info n) then [(a, n)] else []
+  | None => []
+  end.
+
+(* Anchors.scan_for_anchors(dom, anchors): the (name, node) assignments in the
+   order the scan makes them (a later one overwrites an earlier one).  A
+   mapping records its keys and values and descends into map / seq values; a
+   sequence only descends (so an anchored mapping that is a sequence ELEMENT
+   is never recorded, and neither is the root's own anchor); anything else
+   records itself. *)
+Fixpoint scan_anchors (d : node) : list (string * node) :=
+  match d with
+  | NMap _ kvs =>
+      flat_map (fun kv => anc_of (fst kv) ++ anc_of (snd kv) ++
+                          match snd kv with
+                          | NMap _ _ | NSeq _ _ => scan_anchors (snd kv)
+                          | _ => []
+                          end) kvs
+  | NSeq _ els => flat_map scan_anchors els
+  | _ => anc_of d
+  end.
+
+(* all_anchors[name] after the scan: the LAST assignment *)
+Fixpoint last_anchor (name : string) (l : list (string * node)) (acc : option node) : option node :=
+  match l with
+  | [] => acc
+  | (a, n) :: r => last_anchor name r (if String.eqb a name then Some n else acc)
+  end.
+
+(* `compare_node is not None and isinstance(compare_node, dict)` *)
+Definition is_ymk_anchor (r : pyval) (d : node) : bool :=
+  match r with
+  | PStr s => match last_anchor s (scan_anchors d) None with Some n => is_map n | None => false end
+  | _ => false
+  end.
+
+Definition del_step_mg (mg : list N) (p : pcoord) (d : node) : res node :=
+  match pc_parent p with
+  | None => RErr (YPE NoDocument)
+  | Some o =>
+      if existsb (N.eqb o) mg && is_ymk_anchor (pc_ref p) d
+      then RErr (PyCrash NotImplemented)          (* the merge-key removal branch: outside the model *)
+      else app_obj o (del_in (pc_ref p)) d         (* `elif parentref in parent: del parent[parentref]`, lists, sets *)
+  end.
+
+Fixpoint run_del_mg (mg : list N) (ps : list pcoord) (d : node) : final :=
+  match ps with
+  | [] => Done d
+  | p :: r => match del_step_mg mg p d with
+              | ROk d' => run_del_mg mg r d'
+              | RErr e => Failed d e
+              end
+  end.
+
+(* Processor.delete_nodes on a document some of whose mappings carry merge keys;
+   [delete_nodes] above is the case mg = [] (C04merge.delete_nodes_mg_nil) *)
+Definition delete_nodes_mg (mg : list N) (cs : list coord) (d : node) : final := run_del_mg mg (del_order cs) d.
+
 (* ================= part 2: set_value / _apply_change / _update_node =======
    processor.py 169-343 and 2630-2760 after the fix: commits 2481ae4 (sets),
    aaea88e (aliases in sequences), f917898 (addressed position + true aliases
@@ -186,8 +256,10 @@ Definition of_outcome {A} (o : outcome A) : res A :=
 (* what make_new_node builds before the anchor is attached *)
 Record newnode := mknn {
   nn_val : pyval;
-  nn_wrapped : bool     (* a ruamel wrapper class (has .anchor, accepts anchor=); false: a bare Python object *)
+  nn_wrapped : bool;    (* a ruamel wrapper class (has .anchor, accepts anchor=); false: a bare Python object *)
+  nn_sbool : bool       (* the wrapper class is ScalarBoolean (an int subclass): Doc.is_sbool convention *)
 }.
+Definition nn_tag (nn : newnode) : option string := if nn_sbool nn then Some sbool_tag else None.
 
 Fixpoint mem_str (s : string) (l : list string) : bool :=
   match l with [] => false | x :: r => String.eqb s x || mem_str s r end.
@@ -202,23 +274,23 @@ Section MakeNode.
 Variable lit : string -> outcome litres.
 Variable fl : string -> outcome flres.
 
-Definition conv_str (value : pyval) : res newnode := ROk (mknn (PStr (py_str value)) true).
+Definition conv_str (value : pyval) : res newnode := ROk (mknn (PStr (py_str value)) true false).
 
 Definition conv_bool (value : pyval) : res newnode :=
   match value with
-  | PBool b => ROk (mknn (PInt (Z_of_bool b)) true)
+  | PBool b => ROk (mknn (PInt (Z_of_bool b)) true true)       (* ScalarBoolean(value) *)
   | _ =>
       let s := lower_str (py_str value) in
       if mem_str s bool_allowed
-      then ROk (mknn (PInt (if mem_str s bool_truthy then 1%Z else 0%Z)) true)
+      then ROk (mknn (PInt (if mem_str s bool_truthy then 1%Z else 0%Z)) true true)
       else RErr (PyCrash ValueError)
   end.
 
 Definition conv_float (value : pyval) : res newnode :=
   let via (t : string) :=
-    rbind (of_outcome (fl t)) (fun r => match r with FVal v => ROk (mknn v true) | FFail => RErr (PyCrash ValueError) end) in
+    rbind (of_outcome (fl t)) (fun r => match r with FVal v => ROk (mknn v true false) | FFail => RErr (PyCrash ValueError) end) in
   match value with
-  | PFloat _ _ => ROk (mknn value true)
+  | PFloat _ _ => ROk (mknn value true false)
   | PStr s => via s
   | PInt z => via (str_of_Z z)
   | PBool b => via (if b then "1" else "0")
@@ -227,10 +299,10 @@ Definition conv_float (value : pyval) : res newnode :=
 
 Definition conv_int (value : pyval) : res newnode :=
   match value with
-  | PStr s => match py_int s with Some z => ROk (mknn (PInt z) true) | None => RErr (PyCrash ValueError) end
-  | PInt z => ROk (mknn (PInt z) true)
-  | PBool b => ROk (mknn (PInt (Z_of_bool b)) true)
-  | PFloat q _ => ROk (mknn (PInt (Z.quot (Qnum q) (Zpos (Qden q)))) true)
+  | PStr s => match py_int s with Some z => ROk (mknn (PInt z) true false) | None => RErr (PyCrash ValueError) end
+  | PInt z => ROk (mknn (PInt z) true false)
+  | PBool b => ROk (mknn (PInt (Z_of_bool b)) true false)
+  | PFloat q _ => ROk (mknn (PInt (Z.quot (Qnum q) (Zpos (Qden q)))) true false)
   | PNone | POther _ => RErr (PyCrash ValueError)      (* int(None): TypeError, translated like ValueError *)
   end.
 
@@ -246,11 +318,11 @@ Definition conv_default (value : pyval) : res newnode :=
       end
   | PFloat _ _ => conv_float value
   | PBool _ => conv_bool value
-  | PNone => ROk (mknn value false)                 (* NoneType / str: the bare value itself *)
+  | PNone => ROk (mknn value false false)                 (* NoneType / str: the bare value itself *)
   | POther t =>
       if first_char_is "["%char t || first_char_is "{"%char t
       then conv_str value                          (* list / dict literal: not a leaf, or CommentedMap(str) fails *)
-      else ROk (mknn value false)                   (* tuple, bytes, ...: the bare value itself *)
+      else ROk (mknn value false false)                   (* tuple, bytes, ...: the bare value itself *)
   end).
 
 Definition conv (fmt : vformat) (value : pyval) : res newnode :=
@@ -275,13 +347,13 @@ Definition make_new_node (src : option info) (value : pyval) (fmt : vformat) (fr
   rbind (conv fmt value) (fun nn =>
   match (match src with Some i => nonempty_anchor i | None => None end) with
   | Some a =>
-      if nn_wrapped nn then ROk (NLeaf (mkinfo fresh (Some a) true None) (nn_val nn))
+      if nn_wrapped nn then ROk (NLeaf (mkinfo fresh (Some a) true (nn_tag nn)) (nn_val nn))
       else match nn_val nn with
            | PNone => ROk (NLeaf (mkinfo vo None false None) PNone)   (* new_type is NoneType: stays None (fix 2nd nodes.py commit) *)
            | _ => RErr (PyCrash TypeError)        (* str(value, anchor=...) *)
            end
   | None =>
-      if nn_wrapped nn then ROk (NLeaf (mkinfo fresh None true None) (nn_val nn))
+      if nn_wrapped nn then ROk (NLeaf (mkinfo fresh None true (nn_tag nn)) (nn_val nn))
       else ROk (NLeaf (mkinfo vo None false None) (nn_val nn))
   end).
 
